@@ -146,8 +146,8 @@ def param_step(got, den, D, used, ctx, part, bad):
 def run(report, tier):
     apirun.run_config(report, 'MC_C01', observer=observer, report_kinds=('S',), overrides={'Want': '<-MC_WantD'})
     apirun.run_config(report, 'MC_C01M', observer=observer, report_kinds=('S',), overrides={'Want': '<-MC_WantD'})
-    if tier == 'thorough':      # one call deeper over a reduced alphabet (3 functions, 2 literals)
-        apirun.run_config(report, 'MC_C01', observer=observer, report_kinds=('S',), overrides=dict({'MaxCalls': 3, 'Fns': '<-MC_FnsSmall', 'ScalarLits': '<-MC_ScalarLitsSmall'}, Want='<-MC_WantD'), tag='deep')
+    if tier == 'thorough':      # one call deeper over a reduced alphabet (3 functions, 2 literals, operators + * **)
+        apirun.run_config(report, 'MC_C01', observer=observer, report_kinds=('S',), overrides=dict({'MaxCalls': 3, 'Fns': '<-MC_FnsSmall', 'ScalarLits': '<-MC_ScalarLitsSmall', 'SOps': '<-MC_SOpsSmall', 'VOps': '<-MC_VOpsSmall', 'Indices': '<-MC_IndicesSmall'}, Want='<-MC_WantD'), tag='deep')
     return report.finish(
         rule='every Api program of <= MaxCalls calls of the C01/C02 signature with a scalar result x every declared variable '
              '(occurring or not): gradient(e, v).evaluate(p) at regular rational points vs. the spec derivative D(Den(e), v) '
